@@ -378,6 +378,16 @@ func (x *Exec) assumeWF(st *State, v Val) {
 	}
 }
 
+// assumeWFAtom: well-formedness of a value that was read from a map / sequence (named first so that the facts attach to a constant)
+func (x *Exec) assumeWFAtom(st *State, v Val) {
+	if x.c.inContract > 0 || v.Ty == nil {
+		return
+	}
+	if isSimple(v.T) {
+		x.assumeWF(st, v)
+	}
+}
+
 func isAtom(t string) bool {
 	return !strings.HasPrefix(t, "(") || strings.HasPrefix(t, "(select ") || strings.HasPrefix(t, "(|")
 }
